@@ -379,6 +379,94 @@ static void revoked_big(int level, int lbc, int cpu, int kind, int flushA, int t
 	g_strict_free = 0;
 }
 
+/* (iv) large incompressible input in ONE chunk, the FIRST output buffer swept byte by byte around the sizes at which a stored block
+ * is cut by the end of the output buffer: relative to every block boundary p the codec chose (calibrated as above) the windows
+ * p - 65824 + d (what still fits the internal buffer when a stored block is cut) and p + d. Stream object, level buffer, input and
+ * every output buffer are exact-size and end at an inaccessible page; the stream must decode to the input. */
+static void big_out_sweep(int level, int lbc, int cpu)
+{
+	char key[300], why[256];
+	int N = 345000;
+	fill_xorshift(IN, N, 55 + level);
+	cpu_set_level(cpu);
+	struct cparams p = { level, NO_FLUSH, IGZIP_DEFLATE, 0, 0, lbc, API_ONECALL, 0, 0 };
+	size_t ol;
+	struct isal_zstream *cs;
+	int r = c_deflate(&p, IN, N, TMP, 1100000, &ol, &cs);
+	if (r != COMP_OK || !verify_deflate_output(TMP, ol, IGZIP_DEFLATE, IN, N, 0, 0, NULL, 0, why, sizeof why)) {
+		g_reset();
+		return;
+	}
+	g_reset();
+	static int *as;
+	static uint8_t *mark;
+	if (!as) { as = malloc(sizeof(int) * 400000); mark = malloc(1100001); }
+	memset(mark, 0, 1100001);
+	int na = 0;
+	long dlo = -80, dhi = level == 3 ? (v_thorough ? 4600 : 800) : 120;
+	for (int i = 1; i < vs_res.nblocks && i < RI_MAXBLK; i++) {
+		long b = (long)vs_res.blk[i].out_start; /* input bytes before this block */
+		for (int w = 0; w < 2; w++)
+			for (long d = dlo; d <= dhi; d++) {
+				/* output produced so far ~ input consumed for incompressible data (+5 per stored sub-block): both taken as the centre */
+				long a = b - (w ? 65824 : 0) + d;
+				if (a > 0 && a < 1100000 && !mark[a]) { mark[a] = 1; as[na++] = (int)a; }
+			}
+	}
+	for (long a = 1; a < (long)ol + 50; a += (v_thorough ? 997 : 8191))
+		if (!mark[a]) { mark[a] = 1; as[na++] = (int)a; }
+	uint32_t lbs = lb_size(level, lbc);
+	for (int ai = 0; ai < na; ai++) {
+		if (!v_mine(big_unit++))
+			continue;
+		if (nfail > 20 || v_deadline_hit())
+			break;
+		struct isal_zstream *s = g_alloc(sizeof *s, G_END);
+		uint8_t *lb = g_alloc(lbs, G_END), *in = g_alloc(N, G_END);
+		memcpy(in, IN, N);
+		g_readonly(in, 1);
+		size_t out_l = 0;
+		int calls = 0;
+		r = 0;
+		snprintf(key, sizeof key, "big-out-sweep isal_deflate level=%d lbuf=%s cpu=%s input=incompressible:%d in one chunk, first avail_out=%d then 65536-byte buffers", level, lb_name[lbc], cpu_level_name[cpu], N, as[ai]);
+		if (V_TRY()) {
+			isal_deflate_init(s);
+			s->level = level; s->level_buf = lb; s->level_buf_size = lbs;
+			s->next_in = in; s->avail_in = N; s->end_of_stream = 1;
+			while (s->internal_state.state != ZSTATE_END && calls < 4000) {
+				size_t cap = calls == 0 ? (size_t)as[ai] : 65536;
+				uint8_t *out = g_alloc(cap, G_END);
+				s->next_out = out; s->avail_out = cap;
+				r = isal_deflate(s);
+				calls++;
+				size_t pr = cap - s->avail_out;
+				if (r || out_l + pr > 1100000)
+					break;
+				memcpy(TMP + out_l, out, pr);
+				out_l += pr;
+			}
+			V_END();
+		} else {
+			fault_violation(key);
+			g_reset();
+			continue;
+		}
+		v_eval();
+		if (r != COMP_OK || s->internal_state.state != ZSTATE_END) {
+			v_violation(key, "return %d state %d after %d calls", r, s->internal_state.state, calls);
+			nfail++;
+		} else if (g_check()) {
+			v_violation(key, "%s", g_last_damage());
+			nfail++;
+		} else if (!verify_deflate_output(TMP, out_l, IGZIP_DEFLATE, IN, N, 0, 0, NULL, 0, why, sizeof why)) {
+			v_violation(key, "output rejected by the reference decoder: %s", why);
+			nfail++;
+		}
+		g_reset();
+		v_count("big_first_output_sizes", 1);
+	}
+}
+
 int main(int argc, char **argv)
 {
 	v_init(argc, argv, "C05");
@@ -439,6 +527,18 @@ int main(int argc, char **argv)
 								if (v_thorough)
 									revoked_big(level, lbcs[lbi], cpus[ci], kind, fl, three, 1);
 							}
+	}
+	if (part_is("bigout")) {
+		static const int lbcs[] = { LB_DEFAULT, LB_XL, LB_MEDIUM };
+		for (int level = 1; level <= 3; level++)
+			for (int lbi = 0; lbi < (v_thorough ? 3 : 2); lbi++)
+				for (int ci = 0; ci < ncpu; ci++) {
+					if (ncpu > 1 && cpus[ci] != CPU_AVX2 && !(v_thorough && (cpus[ci] == CPU_BASE || cpus[ci] == CPU_AVX512)))
+						continue;
+					if (nfail > 20 || v_deadline_hit())
+						goto done;
+					big_out_sweep(level, lbcs[lbi], cpus[ci]);
+				}
 	}
 	if (v_thorough && part_is("exact"))
 		for (int li = 0; li < N_BIG_LENS; li += 2) {
